@@ -316,10 +316,83 @@ def judge(g, q, r, nm, reach, has_dangling):
     return bad
 
 
+def cross_module(ctx, vh, rng):
+    """inheritance chains that cross module boundaries: the names of a class's super classes are resolved where THAT class is declared (its own module, then the
+    modules it imports -- imports are not transitive), not where the walk started.  Every module may hold a class of the same name as an unrelated one elsewhere."""
+    n = 400 if ctx.tier == "thorough" else 60
+    cases, metas = [], []
+    for _ in range(n):
+        k = rng.choice([2, 3, 3, 4])
+        mods = ["m%d" % i for i in range(k)]
+        imports = {}
+        for i, m in enumerate(mods):
+            imports[m] = [x for j, x in enumerate(mods) if j != i and (j == i + 1 or rng.random() < 0.2)]      # a chain m0 -> m1 -> m2 ... plus a few others
+        names = {m: rng.sample(["A", "B", "C", "D", "R"], rng.choice([1, 2, 2, 3])) for m in mods}
+        scope = {m: [m] + imports[m] for m in mods}
+        supers = {}
+        for m in mods:
+            for x in names[m]:
+                cand = []
+                for m2 in scope[m]:
+                    for y in names[m2]:
+                        if (m2, y) != (m, x) and sum(1 for m3 in scope[m] if y in names[m3]) == 1:
+                            cand.append((m2, y))
+                supers[(m, x)] = rng.sample(cand, min(len(cand), rng.choice([0, 1, 1, 1, 2])))
+        reach = {}
+        for nd in supers:
+            seen, todo = [nd], [nd]
+            while todo:
+                for s2 in supers[todo.pop()]:
+                    if s2 not in seen:
+                        seen.append(s2)
+                        todo.append(s2)
+            reach[nd] = seen
+        mj = []
+        for m in mods:
+            cl = []
+            for x in names[m]:
+                cl.append({"className": x, "qualifiedClassName": x, "object": True, "superClasses": [{"name": y, "access": "public"} for (_, y) in supers[(m, x)]],
+                           "properties": [{"name": "p_%s_%s" % (m, x), "type": "int", "read": "p", "designable": True, "scriptable": True, "stored": True, "user": False, "constant": False,
+                                           "final": False, "required": False, "index": None}],
+                           "methods": [{"name": "f_%s_%s" % (m, x), "access": "public", "returnType": "void", "arguments": []}], "signals": [], "slots": [], "enums": []})
+            mj.append({"name": m, "imports": imports[m], "classes": cl})
+        qs, want = [], []
+        nodes = list(supers)
+        for a in nodes:
+            for b in nodes:
+                qs.append(["derives", a[0], a[1], b[0], b[1]])
+                want.append(b in reach[a])
+            for d in nodes:
+                qs.append(["prop", a[0], a[1], "", "p_%s_%s" % d])
+                want.append(d[1] if d in reach[a] else None)
+                qs.append(["method", a[0], a[1], "", "f_%s_%s" % d])
+                want.append(d[1] if d in reach[a] else None)
+        cases.append({"modules": mj, "queries": qs})
+        metas.append((mj, qs, want, max(len(reach[a]) for a in nodes)))
+        ctx.dist("cross-module-graph-%d-modules" % k)
+    out = C.harness_run(vh, "typemap_multi", cases, timeout=300)
+    nq = 0
+    for (mj, qs, want, depth), r in zip(metas, out):
+        ctx.count(("cross-module", json.dumps(mj, sort_keys=True)), depth >= 3)
+        if not isinstance(r, dict) or "results" not in r:
+            ctx.violation("lookups across modules do not terminate normally: %s" % str(r)[:300], {"modules": mj, "impl_output": str(r)[:600]})
+            continue
+        for q, w, g in zip(qs, want, r["results"]):
+            nq += 1
+            if g != w:
+                what = ("%s.%s is_derived_from %s.%s" % (q[1], q[2], q[3], q[4])) if q[0] == "derives" else ("%s.%s %s %s" % (q[1], q[2], "get_property" if q[0] == "prop" else "get_public_method", q[4]))
+                ctx.violation("%s answers %r; by the class graph (super-class names resolved in the module that declares the class) it is %r" % (what, g, w),
+                              {"modules": mj, "query": q, "impl_output": g, "oracle_output": w, "theorem_or_correspondence": "S: closure oracle across modules"})
+                break
+    ctx.coverage["cross_module_queries"] = nq
+
+
 def run(ctx):
     ctx.proof_leg(TARGETS, PINS, k_targets=["model/ClassGraph.vo"])
     vh = ctx.need_harness()
     rng = ctx.rng
+    if not ctx.replay:
+        cross_module(ctx, vh, rng)
     ngraphs = 7500 if ctx.tier == "thorough" else 400
     graphs = []
     corpus = [
